@@ -559,7 +559,11 @@ def h_map(vf, node, fn, args):
     if isinstance(c, Clos):
         return Seq(s.n, lambda i: vf.apply_closure(c, [s.elem(i)]), 'map(%s)' % s.desc, src=s.src)
     ct = tt(vf, c)
-    return Seq(s.n, lambda i: T.app('apply', ct, tt(vf, s.elem(i))), 'map(%s)' % s.desc, src=s.src)
+
+    def elem(i):
+        r = vf.apply_fn_item(ct, [s.elem(i)], node)
+        return r if r is not None else T.app('apply', ct, tt(vf, s.elem(i)))
+    return Seq(s.n, elem, 'map(%s)' % s.desc, src=s.src)
 
 
 @reg('ITER', 'std::iter::Iterator::enumerate', 'rayon::iter::IndexedParallelIterator::enumerate')
